@@ -104,6 +104,7 @@ type srcSpec struct {
 	Continue   bool `json:"continue,omitempty"`   // keep sending after Send reported closed
 	NeverClose bool `json:"neverClose,omitempty"` // writer does not Close during the run (harness closes it afterwards)
 	Early      bool `json:"early,omitempty"`      // writer goroutine started while the tree is still being built
+	AfterEnds  bool `json:"afterEnds,omitempty"`  // writer starts sending only after all readers derived from it were closed (they all close at once)
 }
 
 const (
@@ -208,6 +209,11 @@ type strand struct {
 	sig  uint64
 	Pan  bool // ends with a forwarder-surfaced panic item
 	conv []int32
+	// seqs of the source's items dropped (no-value) by converters on this path so far, and the
+	// subset of them dropped *below* a forwarder goroutine (such an item is consumed by the
+	// forwarder without a send attempt, i.e. without the forwarder looking at `closed`)
+	drops  []int32
+	fdrops []int32
 }
 
 func (s *strand) seal() {
@@ -244,10 +250,11 @@ type model struct {
 	fwd      map[int32]int // pipe source -> number of forwarder goroutines downstream
 	nFwd     int
 	canPanic map[int32]bool
-	derived  map[int32][]int // pipe source -> indices into tree.Ends
-	endOf    map[int]int     // reader id -> index into Ends
-	nStatic  int             // merges using the static select (2..5 streams)
-	nReflect int             // merges using reflect.Select (>5 streams)
+	fdrop    map[int32]map[int32]bool // pipe source -> seqs dropped by a converter below a forwarder
+	derived  map[int32][]int          // pipe source -> indices into tree.Ends
+	endOf    map[int]int              // reader id -> index into Ends
+	nStatic  int                      // merges using the static select (2..5 streams)
+	nReflect int                      // merges using reflect.Select (>5 streams)
 }
 
 func unionSrc(a, b []int32) []int32 {
@@ -293,7 +300,8 @@ func srcStrand(s *srcSpec) strand {
 // error items at that position, error items pass untouched; a converter panic
 // ends the strand with one foreign error item (the forwarder surfaces it).
 func convStrand(in strand, c *convSpec) strand {
-	out := strand{Src: in.Src, Pan: in.Pan, conv: append(append([]int32{}, in.conv...), c.ID)}
+	out := strand{Src: in.Src, Pan: in.Pan, conv: append(append([]int32{}, in.conv...), c.ID),
+		drops: append([]int32{}, in.drops...), fdrops: in.fdrops}
 	for _, e := range in.Els {
 		if e.K != eVal {
 			out.Els = append(out.Els, e)
@@ -304,6 +312,7 @@ func convStrand(in strand, c *convSpec) strand {
 			e.Val = c.mapVal(e.Val)
 			out.Els = append(out.Els, e)
 		case bDrop:
+			out.drops = append(out.drops, e.Seq)
 		case bFail:
 			out.Els = append(out.Els, elem{K: eConvErr, Src: e.Src, Seq: e.Seq, Conv: c.ID})
 		case bPanic:
@@ -380,7 +389,13 @@ func (m *model) addOp(idx int, op *opSpec) {
 			if in.depth+1 > c.depth {
 				c.depth = in.depth + 1
 			}
-			c.strands = append(c.strands, cloneStrands(in.strands)...)
+			ins := cloneStrands(in.strands)
+			if in.typ == tConv || in.typ == tChild {
+				for k := range ins {
+					ins[k].fdrops = append(append([]int32{}, ins[k].fdrops...), ins[k].drops...)
+				}
+			}
+			c.strands = append(c.strands, ins...)
 			c.up = unionSrc(c.up, in.up)
 			switch in.typ {
 			case tStream:
@@ -418,7 +433,7 @@ func (m *model) addOp(idx int, op *opSpec) {
 }
 
 func newModel() *model {
-	return &model{srcs: map[int32]*srcSpec{}, fwd: map[int32]int{}, canPanic: map[int32]bool{},
+	return &model{srcs: map[int32]*srcSpec{}, fwd: map[int32]int{}, canPanic: map[int32]bool{}, fdrop: map[int32]map[int32]bool{},
 		derived: map[int32][]int{}, endOf: map[int]int{}}
 }
 
@@ -433,6 +448,12 @@ func (m *model) finish(t *tree) {
 		for _, st := range r.strands {
 			if st.Pan {
 				m.canPanic[st.Src] = true
+			}
+			for _, q := range st.fdrops {
+				if m.fdrop[st.Src] == nil {
+					m.fdrop[st.Src] = map[int32]bool{}
+				}
+				m.fdrop[st.Src][q] = true
 			}
 		}
 	}
@@ -465,7 +486,10 @@ func (g *gen) add(op opSpec) {
 	g.m.addOp(len(g.t.Ops)-1, &g.t.Ops[len(g.t.Ops)-1])
 }
 
-func (g *gen) newSource() int {
+func (g *gen) newSource() int { return g.newSourceWith(nil) }
+
+// newSourceWith: tweak may adjust the freshly drawn spec before it is added to the tree.
+func (g *gen) newSourceWith(tweak func(*srcSpec)) int {
 	r := g.r
 	s := &srcSpec{ID: g.nSrc, Pipe: r.Prob(0.68)}
 	g.nSrc++
@@ -502,6 +526,13 @@ func (g *gen) newSource() int {
 		s.NeverClose = r.Prob(0.06)
 		s.Early = r.Bool()
 	}
+	if tweak != nil {
+		tweak(s)
+		kind = "pipe"
+		if !s.Pipe {
+			kind = "array"
+		}
+	}
 	out := g.newReader()
 	g.add(opSpec{Kind: kind, Out: []int{out}, Src: s})
 	return out
@@ -525,7 +556,9 @@ func (g *gen) input(maxD int) int {
 	return g.newSource()
 }
 
-func (g *gen) convert(in int, panicky bool) int {
+func (g *gen) convert(in int, panicky bool) int { return g.convertWith(in, panicky, nil) }
+
+func (g *gen) convertWith(in int, panicky bool, tweak func(*convSpec)) int {
 	r := g.r
 	c := &convSpec{ID: g.nConv, Seed: r.Uint64(), Wrap: r.Prob(0.3)}
 	g.nConv++
@@ -541,6 +574,9 @@ func (g *gen) convert(in int, panicky bool) int {
 	}
 	if panicky {
 		c.Panic = r.Range(2, 6)
+	}
+	if tweak != nil {
+		tweak(c)
 	}
 	out := g.newReader()
 	g.add(opSpec{Kind: "convert", In: []int{in}, Out: []int{out}, Conv: c})
@@ -616,9 +652,14 @@ func (g *gen) step() {
 func genTree(r *mon.Rand) *tree {
 	g := &gen{r: r, t: &tree{}, m: newModel()}
 	g.t.Procs = []int{1, 4, 16}[r.Intn(3)]
-	nOps := r.Range(1, 7)
-	for i := 0; i < nOps; i++ {
-		g.step()
+	probe := r.Prob(0.02)
+	if probe {
+		g.probe()
+	} else {
+		nOps := r.Range(1, 7)
+		for i := 0; i < nOps; i++ {
+			g.step()
+		}
 	}
 	if len(g.pool) == 0 {
 		g.pool = append(g.pool, g.newSource())
@@ -630,6 +671,8 @@ func genTree(r *mon.Rand) *tree {
 		rm := &g.m.readers[id]
 		e := endSpec{Reader: id, Pace: []int{0, 0, 0, 1, 1, 2}[r.Intn(6)], Close: true}
 		switch x := r.Intn(100); {
+		case probe:
+			e.Mode = modeCloseNow
 		case x < 45:
 			e.Mode = modeAll
 			e.Close = r.Prob(0.85)
@@ -657,8 +700,54 @@ func genTree(r *mon.Rand) *tree {
 			}
 		}
 	}
+	// Writers whose derived readers all close at once may be scripted to start only after
+	// those closes returned: then every Send is a "send after the last Close".
+	for _, spec := range sortedSrcs(g.m) {
+		if !spec.Pipe || len(g.m.derived[spec.ID]) == 0 {
+			continue
+		}
+		all := true
+		for _, ei := range g.m.derived[spec.ID] {
+			if g.t.Ends[ei].Mode != modeCloseNow {
+				all = false
+			}
+		}
+		if all && (probe || r.Prob(0.6)) {
+			spec.AfterEnds = true
+		}
+	}
 	g.t.m = g.m
 	return g.t
+}
+
+// probe: a small family of trees aimed at close propagation through a filtering
+// converter below a forwarder: Pipe -> converters (one of them dropping most or all
+// items) -> merge with other sources -> reader closed at once, writer starting late.
+func (g *gen) probe() {
+	r := g.r
+	in := g.newSourceWith(func(s *srcSpec) {
+		if !s.Pipe {
+			s.Pipe, s.Cap, s.Pace = true, r.Intn(5), r.Intn(2)
+		}
+		s.Items = make([]int8, r.Range(10, 18))
+		s.Continue, s.NeverClose = true, false
+	})
+	n := r.Range(1, 2)
+	hot := r.Intn(n)
+	for i := 0; i < n; i++ {
+		drop := 0
+		if i == hot {
+			drop = []int{16, 16, 14}[r.Intn(3)]
+		}
+		in = g.convertWith(in, false, func(c *convSpec) { c.Fail, c.Drop = 0, drop })
+	}
+	ins := []int{in}
+	for k := r.Range(1, 3); k > 0; k-- {
+		ins = append(ins, g.newSource())
+	}
+	out := g.newReader()
+	g.add(opSpec{Kind: "merge", In: ins, Out: []int{out}})
+	g.pool = append(g.pool, out)
 }
 
 // shape is the operator-tree shape without item contents and scripts.
